@@ -26,6 +26,10 @@ def run(ctx: Ctx, chk) -> None:
     chk.run_rule(stateless1, ctx)
     chk.run_rule(encid1, ctx)
     chk.run_rule(enc_fresh, ctx)
+    # observed at Gateway.listen: the yielded message is the decode of the line just read (same rule as C02)
+    from .c02 import fresh_decode
+
+    chk.run_rule(fresh_decode, ctx)
 
 
 def delim1(ctx: Ctx, chk) -> None:
@@ -104,7 +108,15 @@ def order1(ctx: Ctx, chk) -> None:
         else:
             chk.refute(rule, fkey(post, c), f"`{norm(c)}` does not emit str(data[field]) for every field in order", ctx.loc(post, c))
     else:
-        raise AnalysisError(f"ORDER-1: post_dump hook {post.fq}: join over self.fields not recognised")
+        # a list of field texts that is modified in place after it was built from the message
+        mut = I.mutated_locals(post)
+        used = {n.id for r_ in encoded_line_trees(ctx, post) for n in ast.walk(r_) if isinstance(n, ast.Name)}
+        hit = sorted(used & set(mut))
+        if hit:
+            m0 = mut[hit[0]]
+            chk.refute(rule, f"{post.fq}::{hit[0]}::modified-after-build", f"the encoder changes the field texts after building them from the message (`{norm(m0)[:70]}`): the emitted line does not spell the message's own field values (e.g. the payload is rewritten)", ctx.loc(post, m0))
+        else:
+            raise AnalysisError(f"ORDER-1: post_dump hook {post.fq}: join over self.fields not recognised")
 
 
 def encoded_line_trees(ctx: Ctx, post) -> list:
